@@ -69,12 +69,39 @@ def terminates_early(content):
     return True  # closing quotes were swallowed by an escape: unterminated
 
 
-def py_rst_violation(text, width, indent, nl):
+def py_rst_violation(text, width, indent, nl, trim=False):
     from gapic.utils.rst import rst
     out = rst(text, width=width, indent=indent, nl=nl)
+    if trim:
+        out = out.strip()          # what Jinja's `trim` filter does
     if terminates_early(out):
-        return f"rst({text!r}, width={width}, indent={indent}, nl={nl}) = {out!r} terminates a docstring early"
+        return (f"rst({text!r}, width={width}, indent={indent}, nl={nl}){'|trim' if trim else ''} = {out!r} terminates a "
+                "docstring early")
     return None
+
+
+def rst_contexts(repo):
+    """Every `|rst(...)` use in the templates whose output can be followed DIRECTLY by the closing triple quote (only
+    conditional Jinja blocks in between): [(file, line, 'trim' | 'raw')].  Everywhere else a newline of the template
+    separates the text from the closing quotes."""
+    out = []
+    for root in ("gapic/templates", "gapic/ads-templates"):
+        for d, _dirs, files in os.walk(os.path.join(repo, root)):
+            for f in files:
+                if not f.endswith(".j2"):
+                    continue
+                text = open(os.path.join(d, f)).read()
+                for m in re.finditer(r"\|\s*rst\(([^)]*)\)((?:\s*\|\s*\w+(?:\([^)]*\))?)*)\s*-?\}\}", text):
+                    nxt = text.find('"""', m.end())
+                    if nxt < 0:
+                        continue
+                    between = text[m.end():nxt]
+                    between = re.sub(r"\{#.*?#\}", "", between, flags=re.S)
+                    between = re.sub(r"\{%-?\s*if\b.*?\{%-?\s*endif\s*-?%\}", "", between, flags=re.S)
+                    if between == "":
+                        mode = "trim" if re.search(r"\|\s*(trim|striptags)\b", m.group(2)) else "raw"
+                        out.append((os.path.relpath(os.path.join(d, f), repo), text.count("\n", 0, m.start()) + 1, mode))
+    return out
 
 
 # ------------------------------------------------------------------ symbolic NF
@@ -213,7 +240,8 @@ def rst_task(task):
 
     def run():
         try:
-            return rst(s, width=width, indent=indent, nl=nl)
+            r = rst(s, width=width, indent=indent, nl=nl)
+            return bstr.S(r).strip() if task.get("trim") else r
         except OutOfFamily:
             return None
     for ctx, out in bstr.explore(run, base):
@@ -366,32 +394,45 @@ def body(chk: core.Check):
     chk.sample({"formatter_partitions": len(tasks), "leaves": leaves, "wall_s": round(time.time() - t0, 1)})
 
     # ---- (2) rst guard ---------------------------------------------------------------------------
+    # template contexts in which the closing quotes can follow the rst() output directly: the guard is checked for the
+    # output as it is ("raw") and, if some template trims it first, for the trimmed output as well
+    ctxs = rst_contexts(core.REPO)
+    modes = sorted({m for _f, _l, m in ctxs}) or ["raw"]
+    chk.encoded("inventory of |rst(...) uses followed directly by the closing quotes", "\n".join(f"{f}:{l}:{m}" for f, l, m in ctxs))
+    chk.extra["rst_direct_close_contexts"] = [f"{f}:{l} ({m})" for f, l, m in ctxs]
     rtasks = []
-    for (w, ind, nl) in ((72, 0, None), (72, 8, None), (72, 4, True), (40, 4, False)):
-        for L in range(0, (NR if chk.only("rst") else -1) + 1):
-            if L < 2:
-                rtasks.append(dict(L=L, width=w, indent=ind, nl=nl, prefix=()))
-            else:
-                for c0 in RST_ALPHA:
-                    rtasks.append(dict(L=L, width=w, indent=ind, nl=nl, prefix=(c0,)))
+    for trim in [m == "trim" for m in modes]:
+        for (w, ind, nl) in ((72, 0, None), (72, 8, None), (72, 4, True), (40, 4, False)):
+            for L in range(0, (NR if chk.only("rst") else -1) + 1):
+                if L < 2:
+                    rtasks.append(dict(L=L, width=w, indent=ind, nl=nl, prefix=(), trim=trim))
+                else:
+                    for c0 in RST_ALPHA:
+                        rtasks.append(dict(L=L, width=w, indent=ind, nl=nl, prefix=(c0,), trim=trim))
     with mp.Pool(chk.jobs) as pool:
         rres = pool.map(rst_task, rtasks, chunksize=1)
     tot_out = 0
     for lv, outside, checks, secs, cex, task in rres:
         tot_out += outside
-        key = f"rst:L={task['L']},prefix={task['prefix']},w={task['width']},i={task['indent']},nl={task['nl']}"
+        key = f"rst:L={task['L']},prefix={task['prefix']},w={task['width']},i={task['indent']},nl={task['nl']}" + \
+            (",trim" if task.get("trim") else "")
         if cex is None:
             chk.ok("rst-docstring-guard", key, secs, n=max(lv, 1))
         else:
-            text = py_rst_violation(cex, task["width"], task["indent"], task["nl"])
+            text = py_rst_violation(cex, task["width"], task["indent"], task["nl"], bool(task.get("trim")))
             if text:
                 fam = "triple-quote" if '"""' in cex else ("trailing-backslash" if cex.rstrip().endswith("\\") else "other")
+                if task.get("trim"):
+                    fam += "+trim"
                 chk.violation(f"rst:{fam}", text, {"kind": "rst", "input": cex, "width": task["width"],
-                                                  "indent": task["indent"], "nl": task["nl"]})
+                                                  "indent": task["indent"], "nl": task["nl"], "trim": bool(task.get("trim"))})
             else:
                 chk.fail_inconclusive(f"rst counterexample {cex!r} did not replay")
     chk.sample({"rst_partitions": len(rtasks), "paths_outside_family(text needs wrapping)": tot_out})
     chk.twin("rst: inputs containing quotes reach the guard", True)
+    # canary: a template that trims the rst() output right before the closing quotes would defeat the guard
+    rc = rst_task(dict(L=3, width=72, indent=4, nl=None, prefix=(ord("a"),), trim=True))
+    chk.canary("rst() output trimmed directly before the closing quotes (hypothetical template context)", rc[4] is not None, repr(rc[4]))
 
     # ---- (3) wrap re-flow: no word is dropped, duplicated or reordered ----------------------------
     if chk.only("wrap"):
@@ -498,7 +539,7 @@ def replay(chk, data):
         from checks import _docflow as df
         return df.py_doc_violation(data["leading"], data["trailing"], data["detached"])
     if data.get("kind") == "rst":
-        return py_rst_violation(data["input"], data["width"], data["indent"], data["nl"])
+        return py_rst_violation(data["input"], data["width"], data["indent"], data["nl"], bool(data.get("trim")))
     return None
 
 
